@@ -100,6 +100,7 @@ class Rewriter:
         self.rel = relfile
         self.first_line = first_line
         self.log = log
+        self.borrow = set()
         self.helpers = []      # generated helper fns (R4): (name, params, body_text)
         self.prologue = []     # R3 rebinds
 
@@ -123,6 +124,7 @@ class Rewriter:
     def apply_body(self, text, cfg):
         """text: whole fn text (signature + body), comments already stripped."""
         t = text
+        self.borrow = set(cfg.get("borrow", []))
         t = self.r1_bail(t)
         t = self.r6_asserts(t)
         t = self.r7_panics(t)
@@ -262,6 +264,9 @@ class Rewriter:
                 raise ExtractError("R10: not a range %r in %s" % (rng, self.key))
             lo = mr.group(1).strip() or "0"
             hi = mr.group(2).strip()
+            # a field place (self.packet) or a local listed by `@borrow` is borrowed; references are passed on as they are
+            if (re.match(r"^[A-Za-z_][A-Za-z_0-9]*(\.[A-Za-z_][A-Za-z_0-9]*)+$", base) or base in self.borrow) and not base.startswith("&"):
+                base = ("&mut " if mm2.group(1) else "&") + base
             fn = "be_%s_u%s" % (m.group(1), m.group(2))
             rest = [a.strip() for a in args[1:] if a.strip()]
             if hi:
@@ -532,6 +537,7 @@ class FnContract:
         self.inserts = []     # (where, ordinal, anchor, text)
         self.helpers = {}     # name -> (params list, call args list)
         self.closures = []    # (ordinal, header)
+        self.borrow = []
         self.attrs = []
         self.external_body = False
         self.selfname = None
@@ -581,7 +587,7 @@ def parse_contracts(path):
                 flush()
                 cur = line[8:].strip()
                 section = ("items",)
-            elif line.startswith("@") and not line.startswith("@@") and isinstance(cur, FnContract) and re.match(r"@(ret|spec|prologue|loop|before|after|helper|closure|attr|external_body)\b", line):
+            elif line.startswith("@") and not line.startswith("@@") and isinstance(cur, FnContract) and re.match(r"@(ret|spec|prologue|loop|before|after|helper|closure|attr|external_body|borrow)\b", line):
                 flush()
                 m = re.match(r"@(\w+)\s*(.*)$", line)
                 d, rest = m.group(1), m.group(2).strip()
@@ -615,6 +621,9 @@ def parse_contracts(path):
                     section = None
                 elif d == "attr":
                     cur.attrs.append(rest)
+                    section = None
+                elif d == "borrow":
+                    cur.borrow += rest.split()
                     section = None
                 elif d == "external_body":
                     cur.external_body = True
@@ -697,7 +706,8 @@ def extract_fn(sf, owner_item, fn_item, key, contract, log, mode="body"):
     text = strip_comments(raw)
     rw = Rewriter(key, sf.rel, first_line, log)
     text = rw.strip_attrs(text)
-    cfg = {"helpers": contract.helpers if contract else {}, "closures": contract.closures if contract else []}
+    cfg = {"helpers": contract.helpers if contract else {}, "closures": contract.closures if contract else [],
+           "borrow": contract.borrow if contract else []}
     has_body = fn_item.body is not None
     if has_body:
         text = rw.apply_body(text, cfg)
@@ -917,7 +927,13 @@ class UnitBuilder:
         self.extra = {}
         self.trusted = []
         for c in unitdef.get("contracts", []):
+            flt = None
+            if ":" in c:
+                c, flt = c.split(":", 1)
             cs, ex = parse_contracts(os.path.join(ROOT, c))
+            if flt:
+                cs = {k: v for k, v in cs.items() if re.search(flt, k)}
+                ex = {}
             for k, v in cs.items():
                 if k in self.contracts:
                     raise ExtractError("duplicate contract %s" % k)
@@ -1092,6 +1108,7 @@ def build_unit(name, outdir=None):
         "items": ub.items,
         "assumptions": scan_assumptions(text),
         "flags": ud.get("flags", []),
+        "rlimit": ud.get("rlimit"),
     }
     with open(os.path.join(outdir, name + ".map.json"), "w") as f:
         json.dump(meta, f)
